@@ -1037,6 +1037,15 @@ func c04Authenticators(c *Ctx, rg, rc string) {
 		}
 		c.Analysed(p.FName(fn))
 		eq := Guard{Name: "role/key equality", Match: func(f Fact) bool {
+			// membership through the standard library: slices.Contains(list, value) == true
+			if call, ok := f.V.(*ssa.Call); ok && f.Kind == IsTrue {
+				if sc := call.Common().StaticCallee(); sc != nil && strings.HasPrefix(sc.String(), "slices.Contains") && len(call.Common().Args) == 2 {
+					a0, a1 := call.Common().Args[0], call.Common().Args[1]
+					fk := func(v ssa.Value) bool { return dependsOn(v, func(x ssa.Value) bool { return x == fn.Params[1] }) }
+					fu := func(v ssa.Value) bool { return dependsOn(v, func(x ssa.Value) bool { return x == fn.Params[0] }) }
+					return (fk(a0) && fu(a1)) || (fk(a1) && fu(a0))
+				}
+			}
 			bo, ok := f.V.(*ssa.BinOp)
 			if !ok {
 				return false
